@@ -264,7 +264,7 @@ func confirmDeath(id string, seed int64, bin, scratch string, r workerResult) st
 }
 
 func writeEvidence(id, tier string, seed int64, agg *WorkerStats, distinct int, wall, buildS float64, violations, workers int, enumStride int) {
-	if os.Getenv("VERIF_RUNS") != "" {
+	if os.Getenv("VERIF_RUNS") != "" || os.Getenv("VERIF_REPO") != "" {
 		return // development override of the run count: do not touch the evidence file
 	}
 	meta := checkMeta[id]
